@@ -181,10 +181,9 @@ def describe_pair(cx, Q, f, k_polar, points, N, certs=True):
             inst["f_values"] = [r[0] for r in inst["f_values"]]
             try:
                 k0, gen = exppoly.split_piecewise(fp, n)
-                if k0:
-                    raise Unsupported("piecewise closed form")
                 dec = exppoly.decompose(gen, n)
                 inst["f_epoly"] = [[_fs(b), [_fs(c) for c in cs]] for b, cs in dec]
+                inst["f_special"] = [_fs(sp.simplify(fp.subs(n, i))) for i in range(k0)]
             except Unsupported as u:
                 inst["f_unsupported"] = str(u)
             except Exception as e:  # noqa
